@@ -1,5 +1,6 @@
 import SJ.Generated.Consts
 import SJ.Proofs.Stream
+import SJ.Proofs.StreamQueue
 /-
 C09 — ParseNDStream delivers the same documents however the reader fragments.
 -/
@@ -33,5 +34,12 @@ theorem C09_read_line (fin : Fin) (fuel : Nat) (r : Rd) (h : r.pending.length < 
 open SJ.Stream in
 /-- non-vacuity: a stream cut in the middle of a line and in the middle of a document -/
 example : run [[123, 125, 10, 91], [49, 93], [10, 10, 123], [125]] .eof = ([[123, 125, 10, 91, 49, 93, 10], [10, 123, 125]], .eof) := by decide
+
+open SJ.StreamQueue in
+/-- **Order of delivery, for every completion order.** The reader puts one result channel per chunk on the queue
+    in chunk order; parsers complete in any order; the forwarder waits on the oldest channel. Under every
+    interleaving what has been delivered is exactly chunks `0 … n−1` in order. -/
+theorem C09_delivery_order (evs : List Ev) (s : St) (hr : run {} evs = some s) :
+    s.delivered = List.range s.delivered.length ∧ s.delivered.length ≤ s.spawned := delivered_in_order evs s hr
 
 end SJ.Properties.C09
